@@ -53,6 +53,10 @@ func tornFile() {
 			{0: doc(111, 7, 5, 9), 1: doc(222, 55, 50, 60)},
 			{0: doc(111, 7, 5, 9), 1: doc(222, 55, 50, 60), 2: doc(18446744073709551615, 9223372036854775808, 9223372036854775807, 18446744073709551615)},
 			{3: doc(1, 1, 1, 1)},
+			// a position BELOW what the file may hold already: a new branch after a fail-over / rollback (other vbUUID,
+			// lower seqno) and a rollback on the same branch - the last save wins, never "the furthest" (round 12)
+			{0: doc(333, 3, 3, 3), 1: doc(222, 55, 50, 60)},
+			{0: doc(111, 4, 4, 4)},
 		}
 		show := func(d *models.CheckpointDocument) string {
 			if d == nil || d.Checkpoint == nil {
